@@ -272,7 +272,12 @@ def rule_custom(ctx: Ctx):
     ctx.check(okw, "R-C15-4", f, wt[-1] if wt else None, "custom weights stored when given, None (uniform) otherwise", key="custom:weights")
     dm = [c for c in walk_no_nested(f.node) if isinstance(c, ast.Call) and norm(c.func) == "super().init_sampling"]
     loops = [L for L in walk_no_nested(f.node) if isinstance(L, ast.For) and norm(L.iter) == "annotators"]
-    okd = len(dm) == 1 and len(dm[0].args) == 1 and len(loops) == 1 and any(isinstance(c, ast.Call) and norm(c.func) == f"{norm(dm[0].args[0])}.add" and
+    def _gt_absent(c):
+        bi = ctx.model.functions.get("AbstractContinuumSampler.init_sampling")
+        ba = bound_args(c, bi) if bi is not None else None
+        return ba is not None and len(bi.params) >= 3 and bi.params[1] in ba and \
+            (bi.params[2] not in ba or (isinstance(ba[bi.params[2]], ast.Constant) and ba[bi.params[2]].value is None))
+    okd = len(dm) == 1 and len(dm[0].args) >= 1 and _gt_absent(dm[0]) and len(loops) == 1 and any(isinstance(c, ast.Call) and norm(c.func) == f"{norm(dm[0].args[0])}.add" and
                                                                                norm(c.args[0]) == norm(loops[0].target) for c in ast.walk(loops[0]))
     ctx.check(okd, "R-C15-4", f, dm[0] if dm else None, "the custom sampler's annotators are exactly the given ones (all are ground truth)", key="custom:annotators")
 
